@@ -9,55 +9,27 @@ Open Scope N_scope.
 
 (* ---- limits --------------------------------------------------------------------------------- *)
 
-(* Full statement (limit clause of the property): REFUTED by the faithful model — connect() hands
-   out an idle pooled connection through its first _get before any capacity check.  Witness:
-   limit=1; a connection to host 0 is released to the pool, a request to host 1 is being
-   established, a request to host 0 then reuses the idle connection: 2 in use.  Replayed on the
-   implementation: corpus/C07/limit_idle_reuse.json (known finding C07-reuse-over-limit). *)
-Theorem C07_limit_refuted : exists c tr s,
-  run c init tr = Some s /\ closed s = false /\ (0 < limit c)%Z /\
-  (limit c < Z.of_nat (length (acquired s)))%Z.
-Proof.
-  exists {| limit := 1; lph := 0; force_close := false |}.
-  exists [EStart 0 0; ECreateOk 0; ERelease 0 false []; EStart 1 1; EStart 2 0].
-  eexists. vm_compute. repeat split; reflexivity.
-Qed.
-Print Assumptions C07_limit_refuted.
-
-(* What holds instead, for every trace whose EStart steps never take an idle connection while the
-   capacity is exhausted (`good_step`: the pool has no idle connection for the key, or the capacity
-   formula is positive): connections in use or being established (placeholders included) never
-   exceed `limit`, nor `limit_per_host` per endpoint.  Missing for the full statement: a capacity
-   check in front of the first _get. *)
-Theorem C07_limit_partial : forall c tr s,
-  run c init tr = Some s -> all_steps (good_step c) c init tr ->
+(* Full (limit clause of the property), for ALL configurations and ALL traces: connections in use or
+   being established (placeholders included) never exceed `limit`, nor `limit_per_host` per endpoint.
+   Holds since repair 755fa27: connect() takes an idle pooled connection on its fast path only while the
+   capacity is positive (translated fact Generated.PoolGen.connect_fast_path); before that repair the
+   statement was refuted (corpus/C07/limit_idle_reuse.json, kept as a regression case). *)
+Theorem C07_limit : forall c tr s,
+  run c init tr = Some s ->
   ((0 < limit c)%Z -> (Z.of_nat (length (acquired s)) <= limit c)%Z) /\
   ((0 < lph c)%Z -> forall k, (Z.of_nat (count_host k (hostacq s)) <= lph c)%Z).
-Proof. exact limit_partial. Qed.
-Print Assumptions C07_limit_partial.
+Proof. exact limit_full. Qed.
+Print Assumptions C07_limit.
 
-(* With force_close=True nothing is ever pooled, and the limit clause holds for ALL traces. *)
-Theorem C07_limit_force_close : forall c tr s,
-  force_close c = true -> run c init tr = Some s ->
-  ((0 < limit c)%Z -> (Z.of_nat (length (acquired s)) <= limit c)%Z) /\
-  ((0 < lph c)%Z -> forall k, (Z.of_nat (count_host k (hostacq s)) <= lph c)%Z).
-Proof. exact limit_force_close. Qed.
-Print Assumptions C07_limit_force_close.
-
-(* non-vacuity: a run in which requests queue, are woken, lose a race and are cancelled satisfies
-   the hypothesis of C07_limit_partial *)
-Example C07_limit_partial_example :
-  let c := {| limit := 1; lph := 1; force_close := false |} in
-  let tr := [EStart 0 0; EStart 1 0; EStart 2 1; ECreateOk 0; ERelease 0 false [0; 1];
-             EResume 1 []; ECancel 2; EResume 2 []; ERelease 1 false []] in
-  (exists s, run c init tr = Some s /\ length (acquired s) = 0%nat /\ idle s = [(0, 0)]) /\
-  all_steps (good_step c) c init tr.
-Proof.
-  split.
-  - eexists. split; [vm_compute; reflexivity|]. vm_compute. split; reflexivity.
-  - vm_compute. repeat split; left; reflexivity.
-Qed.
-Print Assumptions C07_limit_partial_example.
+(* non-vacuity, on the trace that used to exceed the limit: with limit=1, an idle connection to host 0
+   and a request to host 1 being established, the next request to host 0 now queues *)
+Example C07_limit_example :
+  let c := {| limit := 1; lph := 0; force_close := false |} in
+  let tr := [EStart 0 0; ECreateOk 0; ERelease 0 false []; EStart 1 1; EStart 2 0] in
+  exists s, run c init tr = Some s /\ length (acquired s) = 1%nat /\ idle s = [(0, 0)] /\
+            waiters s = [(2, 0, false)].
+Proof. eexists. vm_compute. repeat split; reflexivity. Qed.
+Print Assumptions C07_limit_example.
 
 (* ---- nothing leaks -------------------------------------------------------------------------- *)
 
@@ -95,29 +67,19 @@ Print Assumptions C07_no_leak_example.
 
 (* ---- no waiter is forgotten ----------------------------------------------------------------- *)
 
-(* Full statement: in a reachable open state with no wake-up in flight, a queued live waiter finds no
-   usable capacity.  REFUTED when limit_per_host is set: _release_waiter computes availability
-   ignoring wake-ups already in flight and may hand two wake-ups to the same host; the second
-   woken waiter silently re-queues and the other host's waiter sleeps with a free slot.
-   Witness (limit_per_host=1): holders on hosts 0 and 1; waiters 2,3 on host 0 and 4 on host 1;
-   both holders release before waiter 2 runs and the shuffle puts host 0 first both times.
-   Replayed on the implementation: corpus/C07/per_host_wasted_wakeup.json
-   (known finding C07-per-host-wasted-wakeup). *)
-Theorem C07_no_lost_wakeup_refuted : exists c tr s t k,
-  run c init tr = Some s /\ closed s = false /\ woken s = [] /\
-  In (t, k, false) (waiters s) /\ (0 < avail c s k)%Z.
-Proof.
-  exists {| limit := 0; lph := 1; force_close := false |}.
-  exists [EStart 0 0; EStart 1 1; ECreateOk 0; ECreateOk 1; EStart 2 0; EStart 3 0; EStart 4 1;
-          ERelease 0 true [0; 1]; ERelease 1 true [0; 1]; EResume 2 []; EResume 3 []].
-  eexists. exists 4, 1. vm_compute. repeat split; try reflexivity. right. left. reflexivity.
-Qed.
-Print Assumptions C07_no_lost_wakeup_refuted.
+(* Full statement (not proved, no longer refuted in this model): in a reachable open state with no wake-up in
+   flight, a queued live waiter finds no usable capacity.  With limit_per_host, _release_waiter still computes
+   availability ignoring wake-ups in flight and may hand a wake-up to a host whose slot is already promised; since
+   the partial repair fb3ee24 the waiter that then finds no slot hands the wake-up on before queueing again
+   (translated fact requeue_hands_on, modelled in `requeue`), so the former witness
+   (corpus/C07/per_host_wasted_wakeup.json, now a regression case) ends with every waiter served.  What remains on
+   the implementation is a delay, outside this model (traces=[]): while the wrongly woken waiter sits in a
+   suspending on_connection_queued_start/_end trace callback the other host's waiter sleeps although its slot is
+   free (open known finding C07-per-host-wasted-wakeup, narrowed). *)
 
 (* What holds, for ALL traces, when only the total limit is configured (limit_per_host = 0):
    a queued live waiter at a point with no wake-up in flight means the limit is really reached.
-   Missing for the full statement: the per-host case (refuted above); the combined case fails by the
-   same witness. *)
+   Missing for the full statement: the per-host and the combined case (see above). *)
 Theorem C07_no_lost_wakeup_partial : forall c tr s t k,
   lph c = 0%Z -> (0 < limit c)%Z ->
   run c init tr = Some s -> closed s = false -> woken s = [] ->
@@ -141,7 +103,7 @@ Print Assumptions C07_wakeups_cover_limit_partial.
 Example C07_no_lost_wakeup_partial_example :
   let c := {| limit := 1; lph := 0; force_close := false |} in
   let tr := [EStart 0 0; ECreateOk 0; EStart 1 0; EStart 3 0; ERelease 0 true [0]; EStart 4 0;
-             EResume 1 []] in
+             EResume 1 [0]] in
   exists s, run c init tr = Some s /\ closed s = false /\ woken s = [] /\
             waiters s = [(1, 0, false); (3, 0, false)] /\ length (acquired s) = 1%nat.
 Proof. eexists. vm_compute. repeat split; reflexivity. Qed.
